@@ -158,7 +158,14 @@ def make_traced(cls, rec):
         return r
 
     ns["step"] = step
+    has_inv = False
     if hasattr(cls, "solve_implicit"):
+        try:
+            import inspect
+            has_inv = "invertion" in inspect.signature(cls.solve_implicit).parameters
+        except (TypeError, ValueError):
+            has_inv = False
+    if has_inv:
 
         def solve_implicit(self, field, dtloc, *args, **kw):
             if args:
@@ -167,6 +174,9 @@ def make_traced(cls, rec):
                 kw["invertion"] = rec.linsolve
             return cls.solve_implicit(self, field, dtloc, *args, **kw)
 
+        ns["solve_implicit"] = solve_implicit
+    if hasattr(cls, "calc_jacobian"):
+
         def calc_jacobian(self, field, *args, **kw):
             rec.phase_push("jac")
             try:
@@ -174,7 +184,6 @@ def make_traced(cls, rec):
             finally:
                 rec.phase_pop()
 
-        ns["solve_implicit"] = solve_implicit
         ns["calc_jacobian"] = calc_jacobian
     T = type(cls.__name__, (cls,), ns)
     T.__module__ = cls.__module__
